@@ -18,16 +18,12 @@ EffCfg == IF ~Lenient THEN cfg
                    ELSE cfg.args[k]]]
 \* words delivered before argv: the effective lines of the argument file (not empty, not starting
 \* with '#'), each split like a command string, then the environment variable (if not empty)
-RECURSIVE TextLines(_)
-TextLines(t) == IF Len(t) = 0 THEN <<>>
-                ELSE LET p == PosOf(t, 10) IN
-                     IF p = 0 THEN <<t>> ELSE <<SubSeq(t, 1, p - 1)>> \o TextLines(Tail2(t, p + 1))
-EffLines(t) == SelectSeq(TextLines(t), LAMBDA ln : Len(ln) > 0 /\ ln[1] # 35)
 PreOf(ev) == (IF ev.presrc \in {"file", "both"} THEN [k \in 1..Len(EffLines(ev.filetext)) |-> SplitStr(EffLines(ev.filetext)[k])] ELSE <<>>)
              \o (IF ev.presrc \in {"env", "both"} /\ Len(ev.envstr) > 0 THEN <<SplitStr(ev.envstr)>> ELSE <<>>)
 EvalMatches ==
    IF Ev.tag.k = "raw" THEN Ev.out \in {"ok", "err"} ELSE
-   LET r == Eval(EffCfg, PreOf(Ev), IF Ev.mode = "string" THEN SplitStr(Ev.cmd) ELSE Ev.argv) IN
+   LET ecfg == IF "files" \in DOMAIN Ev THEN [files |-> Ev.files] @@ EffCfg ELSE EffCfg
+       r == Eval(ecfg, PreOf(Ev), IF Ev.mode = "string" THEN SplitStr(Ev.cmd) ELSE Ev.argv) IN
    \/ Ev.tag.k = "raw" /\ Ev.out \in {"ok", "err"}      \* C04: arbitrary bytes: only "returns or throws a std::exception"
    \/ Outcome(r) = "undef" /\ Ev.out \in {"ok", "err"}
    \/ Outcome(r) = "err" /\ Ev.out = "err"
